@@ -63,6 +63,8 @@ func (SlidingWindow) New(cfg Config) fiber.Handler {
 			// the next request and not show the correct expiry.
 			elapsed := ts - e.exp
 			if elapsed >= expiration {
+				// More than a whole window without traffic: the previous window is empty
+				e.prevHits = 0
 				e.exp = ts + expiration
 			} else {
 				e.exp = ts + expiration - elapsed
@@ -96,6 +98,9 @@ func (SlidingWindow) New(cfg Config) fiber.Handler {
 		// we add the expiration to the duration.
 		// Otherwise after the end of "sample window", attackers could launch
 		// a new request with the full window length.
+		// Remember the window the hit was counted in (the entry is recycled by manager.set)
+		expAtHit := e.exp
+
 		manager.set(key, e, time.Duration(resetInSec+expiration)*time.Second) //nolint:gosec // Not a concern
 
 		// Unlock entry
@@ -122,9 +127,26 @@ func (SlidingWindow) New(cfg Config) fiber.Handler {
 			// Lock entry
 			mux.Lock()
 			e = manager.get(key)
-			e.currHits--
-			remaining++
-			manager.set(key, e, cfg.Expiration)
+			// Take the hit back from the window it was counted in, which may have become
+			// the previous window meanwhile; never push a later window below zero
+			refunded := false
+			switch {
+			case e.exp == expAtHit && e.currHits > 0:
+				e.currHits--
+				remaining++
+				refunded = true
+			case e.exp == expAtHit+expiration && e.prevHits > 0:
+				e.prevHits--
+				refunded = true
+			}
+			if refunded {
+				// Keep the entry until the end of the next window, as above
+				ttl := expiration
+				if now := uint64(utils.Timestamp()); e.exp > now {
+					ttl += e.exp - now
+				}
+				manager.set(key, e, time.Duration(ttl)*time.Second) //nolint:gosec // Not a concern
+			}
 			// Unlock entry
 			mux.Unlock()
 		}
